@@ -84,6 +84,11 @@ func checkC05(c *Ctx, r *Report) {
 	// C05.f conversion arms cover the primitives validation lets through
 	checkConversionArms(c, r, "C05.f")
 
+	// C05.g a path parameter can only be bound if its route matches: {name} translation (shared with C02.f)
+	checkUrlParamRegex(c, r, "C05.g")
+	// context parameters are recognised exactly (shared with C06)
+	checkIsContextExact(c, r, "C05.g")
+
 	// order producer (shared with C06.a)
 	ruleNoReorder(c, r, "C05.c", "(core/metadata.ReceiverMeta).Reduce", "ReceiverMeta.Reduce")
 	ruleNoReorder(c, r, "C05.c", "(*core/arbitrators.AstArbitrator).GetFuncParametersMeta", "GetFuncParametersMeta")
@@ -515,4 +520,47 @@ func checkEngineParsing(c *Ctx, r *Report, cl map[string]string) {
 		}
 	}
 
+}
+
+// checkIsContextExact: a parameter is treated as the request context (never bound, never
+// documented) only if it is exactly context.Context.
+func checkIsContextExact(c *Ctx, r *Report, clause string) {
+	w := c.W
+	const fn = "(core/metadata.TypeUsageMeta).IsContext"
+	fi := need(c, r, clause, fn)
+	if fi == nil {
+		return
+	}
+	viol := ""
+	var sites []string
+	sites = append(sites, w.pos(fi.Decl.Pos()))
+	consts := map[string]bool{}
+	fields := map[string]bool{}
+	allInstrs(fi.SSA, true, func(_ *ssa.Function, _ *ssa.BasicBlock, _ int, ins ssa.Instruction) {
+		switch x := ins.(type) {
+		case ssa.CallInstruction:
+			viol = fmt.Sprintf("%s: IsContext calls %s: anything looser than `Name == \"Context\" && PkgPath == \"context\"` makes user types named Context (in any package whose path merely resembles it) vanish from parameter binding and from the documented parameters/body", w.pos(x.Pos()), calleeName(x))
+		case *ssa.BinOp:
+			if x.Op != token.EQL && x.Op != token.NEQ {
+				viol = fmt.Sprintf("%s: IsContext uses a comparison other than ==/!=", w.pos(x.Pos()))
+			}
+			for _, o := range []ssa.Value{x.X, x.Y} {
+				if k, ok := o.(*ssa.Const); ok {
+					consts[constString(k.Value)] = true
+				}
+			}
+		case *ssa.FieldAddr:
+			if v := structFieldVar(x.X.Type(), x.Field); v != nil {
+				fields[v.Name()] = true
+			}
+		case *ssa.Field:
+			if v := structFieldVar(x.X.Type(), x.Field); v != nil {
+				fields[v.Name()] = true
+			}
+		}
+	})
+	if viol == "" && (!consts["Context"] || !consts["context"] || !fields["Name"] || !fields["PkgPath"] || len(consts) != 2) {
+		viol = fmt.Sprintf("IsContext is not the exact test Name == \"Context\" && PkgPath == \"context\" (constants %v, fields %v)", keys(consts), keys(fields))
+	}
+	r.add(clause, "fieldflow", fn+":exact", "only context.Context itself is treated as the request context", []string{fn}, sites, viol)
 }
